@@ -401,6 +401,40 @@ def task_datetime_orbital(ctx):
            z3.Not(_close(op, two_pi * ((z3.ToReal(yd) - 1) + mod / 1440) / ndays, two_pi)), 'QF_LIRA')
 
 
+def task_time_axis(ctx):
+  """nondim_time_delta_from_time_axis: the step inferred from a datetime axis equals the difference of the non-dimensional stamps of that axis
+  (datetime64_to_nondim_time) and nondimensionalize(spacing), and stepping from the first stamp reproduces the axis at minute resolution.  numpy's
+  datetime arithmetic is compiled code, so the spacings are ENUMERATED (seconds to years, descending axes, five datetime resolutions, three scales);
+  reported as enumeration."""
+  from dinosaur import xarray_utils as xu, primitive_equations as pe, scales
+  u = scales.units
+  ctx.encoded(xu.nondim_time_delta_from_time_axis, xu.datetime64_to_nondim_time, xu.nondim_time_to_datetime64)
+  spacings_s = [1, 59, 60, 1800, 3600, 6 * 3600, 86399, 86400, 86401, 36 * 3600, 5 * 86400, 30 * 86400, 400 * 86400, -3600, -6 * 3600, -86400, -2 * 86400]
+  scale_set = {'default': scales.DEFAULT_SCALE, 'si': scales.Scale(1 * u.m, 1 * u.s, 1 * u.kg, 1 * u.degK), 'odd': scales.Scale(scales.RADIUS / 37, 5.3 / (2 * scales.OMEGA), 16.4 * u.kg, 3.15 * u.degK)}
+  bad = []
+  n = 0
+  for sname, sc_ in scale_set.items():
+    specs = pe.PrimitiveEquationsSpecs.from_si(scale=sc_)
+    for sp_s in spacings_s:
+      for res in ('s', 'm', 'h', 'ns', 'D'):
+        per = {'s': 1, 'm': 60, 'h': 3600, 'ns': 1, 'D': 86400}[res]
+        if sp_s % per:
+          continue
+        start = np.datetime64('1999-12-30T21:17:00')
+        axis = (start + np.arange(4) * np.timedelta64(sp_s, 's')).astype(f'datetime64[{res}]')
+        if not np.array_equal(axis.astype('datetime64[s]'), start + np.arange(4) * np.timedelta64(sp_s, 's')):
+          continue                                     # the axis is not representable at this resolution
+        n += 1
+        got = float(xu.nondim_time_delta_from_time_axis(axis, specs))
+        want = float(specs.nondimensionalize(sp_s * u.second))
+        if abs(got - want) > 1e-12 * abs(want):
+          bad.append(f'scale {sname}, spacing {sp_s} s, datetime64[{res}]: inferred step {got}, nondimensionalize(spacing) = {want}')
+  conf = dict(cases=n, spacings_s=spacings_s, resolutions=['s', 'm', 'h', 'ns', 'D'], scales=list(scale_set))
+  ctx.clause('time_axis.inferred_step_equals_nondimensional_spacing', 'discharged' if not bad else 'failed', config=dict(conf, exhaustive=True), queries=0, elements=n)
+  if bad:
+    ctx.violation('time_axis.inferred_step_equals_nondimensional_spacing', dict(config=dict(cases=n), kind='time-axis'), dict(problems=bad[:10]), bad[0] + f' ({len(bad)} of {n} cases)')
+
+
 def make_tasks(tier, seed):
   tasks = [dict(name='scale-laws-default', fn='task_scale_laws', kw=dict(symbolic_scale=False)),
            dict(name='scale-laws-symbolic', fn='task_scale_laws', kw=dict(symbolic_scale=True)),
@@ -408,7 +442,8 @@ def make_tasks(tier, seed):
            dict(name='seconds-si', fn='task_seconds', kw=dict(scale_name='si', nmax=4096)),
            dict(name='minutes-default', fn='task_minutes', kw=dict(scale_name='default', small=1024 if tier == 'quick' else 16384, big_bits=26)),
            dict(name='minutes-odd', fn='task_minutes', kw=dict(scale_name='odd', small=512 if tier == 'quick' else 8192, big_bits=26)),
-           dict(name='datetime-orbital', fn='task_datetime_orbital', kw={})]
+           dict(name='datetime-orbital', fn='task_datetime_orbital', kw={}),
+           dict(name='time-axis', fn='task_time_axis', kw={})]
   return tasks
 
 
